@@ -33,3 +33,31 @@ RES_WRAPPER_CONTRACT(res1_inverse, vorbis_book_decodev_add)
 #endif
   ;
 #endif
+#ifdef VERIF_RES_CORE
+/* The partition decoders write only memory they obtained themselves (the
+   class-word table from the block arena / the stack); everything else they do
+   goes through the checked callees (stubs in res0_inv.spec.h). */
+static int _01inverse(vorbis_block *vb, vorbis_look_residue *vl, float **in, int ch,
+                      long (*decodepart)(codebook *, float *, oggpack_buffer *, int))
+  __CPROVER_requires(g_part_calls == 0 && g_class_calls == 0)
+  __CPROVER_assigns(g_part_calls, g_class_calls, __CPROVER_alloca_object)
+  __CPROVER_ensures(RV == 0)
+#ifdef VERIF_ENFORCE__01inverse
+  REACH_ENSURES(g_part_calls >= 3)
+  REACH_ENSURES(g_part_calls == 0 && g_class_calls == 1)
+  REACH_ENSURES(g_class_calls == 0)
+#endif
+  ;
+int res2_inverse(vorbis_block *vb, vorbis_look_residue *vl, float **in, int *nonzero, int ch)
+  __CPROVER_requires(g_part_calls == 0 && g_class_calls == 0)
+  __CPROVER_assigns(g_part_calls, g_class_calls)
+  __CPROVER_ensures(RV == 0)
+  /* 8.6.2: a bundle whose vectors are all 'do not decode' reads nothing */
+  __CPROVER_ensures(((ch < 1 || !nonzero[0]) && (ch < 2 || !nonzero[1])) ==> (g_part_calls == 0 && g_class_calls == 0))
+#ifdef VERIF_ENFORCE_res2_inverse
+  REACH_ENSURES(g_part_calls >= 3)
+  REACH_ENSURES(g_part_calls == 0 && g_class_calls == 1)
+  REACH_ENSURES(g_class_calls == 0 && ch == 2 && nonzero[1])
+#endif
+  ;
+#endif
